@@ -407,26 +407,27 @@ def _rsqrt(c):
     return Fr(rn, rd) if rn * rn == c.numerator and rd * rd == c.denominator else None
 
 
+def _positive_atom(v):
+    return CTX.kind[v][0] == 'sqrt'
+
+
 def sqrt(x):
+    """principal square root.  Only provably positive factors (sqrt atoms, square rational content) are
+    pulled out of the radical: sqrt(x^2) stays a defined atom s with s^2 = x^2 (it is |x|, not x)."""
     x = x.norm() if x.has_defined() else x
     if x.zero():
         return x
     g = x.split()
     if len(g) == 1:
         (emon, poly), = g.items()
-        if all(e % 2 == 0 for v, e in emon):
+        if all(e % 2 == 0 and _positive_atom(v) for v, e in emon):
             half = El({tuple((v, e // 2) for v, e in emon): Fr(1)})
             return _sigma(poly).rawmul(half).norm()
     return _sigma(x)
 
 
 def _sigma(p):
-    if len(p.t) == 1:
-        (m, c), = p.t.items()
-        r = _rsqrt(c)
-        if r is not None and all(e % 2 == 0 for v, e in m):
-            return El({tuple((v, e // 2) for v, e in m): r})
-    # even monomial content and square rational content of the leading coefficient
+    # square rational content of the leading coefficient
     lc = p.t[lead(p)]
     scale = Fr(1)
     r = _rsqrt(abs(lc))
@@ -434,29 +435,32 @@ def _sigma(p):
         p = El({m: c / lc for m, c in p.t.items()})
         scale = r
     res = El.c(scale)
+    if len(p.t) == 1 and () in p.t and p.t[()] == 1:
+        return res
     K = CTX.kind
     if is_poly(p):
         for v, kind in list(K.items()):
-            if kind[0] == 'sqrt' and is_poly(kind[1]) and len(kind[1].t) > 1:
+            if kind[0] == 'sqrt' and is_poly(kind[1]):
                 while True:
                     q = exact_div(p, kind[1])
                     if q is None:
                         break
                     q2 = exact_div(q, kind[1])
                     if q2 is not None:
+                        # rad^2 divides p: sqrt(rad^2) = |rad| = (sqrt rad)^2
                         p = q2
-                        res = res.rawmul(kind[1])
+                        res = res.rawmul(El.a(v, 2))
                     else:
                         p = q
                         res = res.rawmul(El.a(v))
                         break
-    if len(p.t) == 1 and () in p.t and p.t[()] == 1:
-        return res.norm()
-    if len(p.t) == 1:
-        (m, c), = p.t.items()
+                if len(p.t) == 1 and () in p.t:
+                    break
+    if len(p.t) == 1 and () in p.t:
+        c = p.t[()]
         r = _rsqrt(c)
-        if r is not None and all(e % 2 == 0 for v, e in m):
-            return res.rawmul(El({tuple((v, e // 2) for v, e in m): r})).norm()
+        if r is not None:
+            return res.rawmul(El.c(r)).norm()
     k = ('sqrt', p.key())
     if k not in CTX.bykey:
         CTX.bykey[k] = CTX.atom('sqrt[%s]' % show(p, 6), ('sqrt', p))
